@@ -295,7 +295,24 @@ def locale_chain(ctx):
             recv = arg(an, bb, t, 0)
             if self_field(recv) == "messages":
                 look.append((bb, t))
-        ctx.exact(R, "self.messages.get(candidate) lookups", len(look), 1, lb.loc)
+        # the same lookup written with a combinator: candidates.iter().find_map(|c| self.messages.get(c))
+        via_find = []
+        for fbb, ft, ai, cb in closure_arg_calls(ctx, lb, ("Iterator::find_map",)):
+            can = ctx.an(cb)
+            for ibb, it_ in calls(cb, "HashMap::<K, V, S>::get") + calls(cb, "HashMap::get"):
+                if self_field(arg(can, ibb, it_, 0)) == "messages" and flow.strip(arg(can, ibb, it_, 1))[0] == "param":
+                    via_find.append((fbb, ft))
+        ctx.exact(R, "self.messages.get(candidate) lookups", len(look) + len(via_find), 1, lb.loc)
+        for fbb, ft in via_find:
+            src = arg(an, fbb, ft, 0)
+            from_list = bool(find_all(src, lambda x: x[0] == "mut" and any(m.endswith("append_locale") for m in x[2])))
+            ctx.check(from_list, R, "C03/locale-chain/lookup-iterates-candidates", site(lb, fbb),
+                      reason="find_map runs over %s, not over the candidate list" % render(src, maxdepth=5),
+                      detail="find_map over the candidate list front to back")
+            ctx.check(always_before(g, b2, fbb), R, "C03/locale-chain/lookup-after-build", site(lb, fbb),
+                      reason="lookup happens before the candidate list is complete", detail="lookup after both appends")
+            ctx.check(not calls_in(src, "Iterator::rev") and not calls_in(src, "Iterator::skip"), R, "C03/locale-chain/front-to-back", site(lb, fbb),
+                      reason="candidates are tried in reverse order", detail="no reversal of the candidate order")
         for bb, t in look:
             k = arg(an, bb, t, 1)
             it = [c for c in calls_in(k, "Iterator::next")]
@@ -313,7 +330,7 @@ def locale_chain(ctx):
             ctx.check(not revs, R, "C03/locale-chain/front-to-back", site(lb, bb),
                       reason="candidates are tried in reverse order", detail="no reversal of the candidate order")
         # loop exit on first hit: a branch on is_some of the lookup result leaves the loop
-        brk = False
+        brk = bool(via_find)      # find_map returns the first Some by definition
         for b in lb.blocks:
             if b.cleanup or b.term.kind != "switch" or lb.is_noise(b.term):
                 continue
@@ -327,7 +344,42 @@ def locale_chain(ctx):
     aan = ctx.an(ab)
     ag = ctx.graph(ab)
     pushes = calls(ab, "Vec::<T, A>::push") + calls(ab, "Vec::push")
-    ctx.exact(R, "push calls in append_locale", len(pushes), 2, ab.loc)
+    exts = [(bb, t) for bb, t in calls(ab, "Extend::extend")]
+    if len(pushes) == 1 and len(exts) == 1:
+        # push(locale); locales.extend(seps.iter().rev().map(|&i| &locale[..i]))
+        ctx.exact(R, "push calls in append_locale", len(pushes) + len(exts), 2, ab.loc)
+        fb_, ft_ = pushes[0]
+        full_ok = param_name(arg(aan, fb_, ft_, 1)) == "locale" and field_path(arg(aan, fb_, ft_, 1))[1] == []
+        eb_, et_ = exts[0]
+        ctx.check(full_ok and param_name(arg(aan, eb_, et_, 0)) == "locales" and param_name(arg(aan, fb_, ft_, 0)) == "locales", R,
+                  "C03/locale-chain/append-shape", ab.loc,
+                  reason="unrecognised-implementation: append_locale must push the full locale once and then its prefixes", detail="push(locale); extend(prefixes)")
+        ctx.check(always_before(ag, fb_, eb_), R, "C03/locale-chain/full-before-prefixes", site(ab, fb_),
+                  reason="prefixes are pushed before the full locale", detail="full locale first")
+        it_e = arg(aan, eb_, et_, 1)
+        okp = bool(calls_in(it_e, "Iterator::rev")) and bool(calls_in(it_e, "match_indices")) and \
+            bool(find_all(it_e, lambda x: x[0] == "const" and x[2] == "_"))
+        maps = [c for c in calls_in(it_e, "Iterator::map") if len(c[3]) == 2 and flow.strip(c[3][1])[0] == "agg" and flow.strip(c[3][1])[1].startswith("closure:")]
+        # the element closure: &locale[..i]
+        elem_ok = False
+        for c in maps:
+            clo = flow.strip(c[3][1])
+            cb = ctx.prog.bodies.get(clo[1].split(":", 1)[1])
+            if cb is None:
+                continue
+            r0 = flow.strip(return_expr(ctx.an(cb)))
+            if r0[0] == "call" and flow.short(r0[1]).endswith("Index::index"):
+                base, rng = flow.strip(r0[3][0]), flow.strip(r0[3][1])
+                caps = dict(clo[2])
+                is_locale = base[0] == "field" and flow.strip(base[1])[0] == "env" and param_name(caps.get(base[2], ("unknown", ""))) == "locale"
+                if is_locale and rng[0] == "agg" and rng[1].endswith("RangeTo") and flow.strip(rng[2][0][1])[0] in ("param", "field", "deref"):
+                    elem_ok = True
+        ctx.check(okp and elem_ok, R, "C03/locale-chain/prefixes-longest-first", site(ab, eb_),
+                  reason="prefixes are produced by %s; expected &locale[..i] for i over match_indices('_') reversed" % render(it_e, maxdepth=6),
+                  detail="prefixes = locale[..i], i over '_' positions, last first")
+        pushes = []
+    else:
+        ctx.exact(R, "push calls in append_locale", len(pushes), 2, ab.loc)
     if len(pushes) == 2:
         full = [p for p in pushes if param_name(arg(aan, p[0], p[1], 1)) == "locale" and field_path(arg(aan, p[0], p[1], 1))[1] == []]
         pre = [p for p in pushes if p not in full]
@@ -360,6 +412,13 @@ def locale_chain(ctx):
             gs = [c for c in calls_in(v, "::get")]
             if any(param_name(c[3][1]) == "key" for c in gs):
                 tmpl = True
+        # params.iter().fold(template.clone(), |m, (k, v)| m.replace(k, v))
+        for c in calls_in(v, "Iterator::fold"):
+            if len(c[3]) == 3 and any(param_name(gc[3][1]) == "key" for gc in calls_in(c[3][1], "::get")) and param_name(flow.strip(c[3][0], extra=("iter", "into_iter"))) == "params":
+                clo = flow.strip(c[3][2])
+                cb = ctx.prog.bodies.get(clo[1].split(":", 1)[1]) if clo[0] == "agg" and clo[1].startswith("closure:") else None
+                if cb is not None and (calls(cb, "str::replace") or [1 for _, t_ in cb.calls() if (cname(t_) or dname(t_)).endswith("::replace")]):
+                    tmpl = True
     ctx.check(tmpl, R, "C03/locale-chain/template-by-key", lb.loc,
               reason="the returned text is not table[candidate].get(key) with parameters substituted",
               detail="text = messages[candidate][key] with replace(param_key, param_val)")
